@@ -323,6 +323,10 @@ Definition c18_listing_spec (d : device) : string :=
   (if single_exitsb (preorder (d_objects d)) then "single" else "multi") ++ ";" ++
   show_items show_spec_item (spec_items d).
 
+(* model listing and spec listing in one evaluation *)
+Definition c18_both_code (d : device) : string := c18_listing_code d ++ "##" ++ c18_listing_spec d.
+Definition c18_both_fixed (d : device) : string := c18_listing_fixed d ++ "##" ++ c18_listing_spec d.
+
 (* ------------------------------------------------------------------ example trees (used by CfgProofs / props/C18) *)
 
 Definition ex_config : config :=
